@@ -4,4 +4,5 @@ EXTENDS Batching
 Direct == {"direct"}
 Lengths == {"lengths"}
 Both == {"direct", "lengths"}
+LengthsZero == {"lengths", "zero"}
 =============================================================================
